@@ -76,5 +76,25 @@ def explore(ctx):
                 closepos = rng.choice([None] + list(range(k + 1)))
                 lines.append(scenarios(k, kinds, order, acts, closepos, rng.choice(["close", "eof"]), "s%d" % n))
                 n += 1
+        # long histories: one call is cancelled by the peer but its handler keeps running while many more requests
+        # arrive; when it finally returns nobody else may be affected
+        for _ in range({"quick": 6, "thorough": 60, "search": 15}[tier]):
+            m = rng.choice([33, 40, 70, 100])
+            s = [scn.feed_call(10, 100), "waithandlers/1", scn.feed_cancel(10), "settle"]
+            for i in range(1, m + 1):
+                s.append(scn.feed_call(10 + i, 100 + i) if rng.chance(3, 4) else scn.feed_notify(100 + i))
+            s.append("waithandlers/%d" % (m + 1))
+            s.append("settle")
+            s.append(scn.finish(0, 100))
+            s.append("settle")
+            for i in rng.shuffle(list(range(1, m + 1)))[:10]:
+                s.append(scn.finish(i, 100 + i))
+            s.append("settle")
+            lines.append(scn.line("scn", "s%d" % n, s, extra="nt=1 family=cancelled-handler-outlives-many-requests")); n += 1
+        # a request is being decoded while Close runs: it must either not be served or be cancelled
+        for _ in range({"quick": 6, "thorough": 60, "search": 15}[tier]):
+            s = ["park/MakeArg/1", "feednowait/" + (scn.feed_call(10, 100) if rng.chance(1, 2) else scn.feed_notify(100))[5:], "waitpark/MakeArg",
+                 "close/nowait", "waitdone", "settle", "release/MakeArg", "settle", "sleep/5", "settle"]
+            lines.append(scn.line("scn", "s%d" % n, s, extra="nt=1 family=close-while-decoding-request")); n += 1
     triples, tie = C.run_both(ctx, "TestVerifScn", lines, go_timeout=1500)
     return dict(verdicts=triples, tie=tie, stats=dict(scenarios=len(lines)), exhaustive=not ctx.get("replay"))
